@@ -3,7 +3,7 @@ SPECIFICATION EnumSpec
 CONSTANTS
   NDocs = 5
   PatIds = {1, 2}
-  TreeIds = {1, 2, 3, 7}
+  TreeIds = {1, 2, 7}
   SortIds = {1, 2, 3, 4}
   MaxFrom = 3
   MaxSize = 3
